@@ -37,6 +37,10 @@ def session(seed):
         N = U.random_nfa(rng, rng.randint(1, 3), S if rng.random() < 0.8 else S[:1], eps=e_i, prefix=pf,
                          total=rng.random() < 0.3)
         pool.append(N)
+    if rng.random() < 0.2:
+        # one operand's epsilon symbol is an INPUT symbol of another operand
+        pool.append(U.random_nfa(rng, rng.randint(1, 3), "a", eps="e", prefix="m", total=rng.random() < 0.3))
+        pool.append(U.random_nfa(rng, rng.randint(1, 3), "ae", eps=rng.choice(["", "ε"]), prefix="n", total=rng.random() < 0.3))
     own = IdentifierGenerator(rng.choice([0, 0, 5, 9, 9, 10])) if rng.random() < 0.4 else None
     if rng.random() < 0.3:
         # operand states q8, q9, q10, q11, ...: the generator's proposals collide several times in a row
@@ -50,8 +54,7 @@ def session(seed):
             A = rng.choice(pool)
             B = None
         else:
-            cand = [(X, Y) for X in pool for Y in pool if X is not Y and X.Q.isdisjoint(Y.Q)
-                    and X.epsilon not in Y.Sigma and Y.epsilon not in X.Sigma]
+            cand = [(X, Y) for X in pool for Y in pool if X is not Y and X.Q.isdisjoint(Y.Q)]
             if not cand:
                 continue
             A, B = rng.choice(cand)
@@ -131,7 +134,7 @@ def check(tier, seed):
         res.notes["spec_behaviours_replayed_into_impl"] = info
 
     return base.standard_check(PID, tier, seed, ts, MODELS[tier], RULE, nontrivial, matchers=MATCHERS, extra=extra,
-                               assumptions=["an operand's epsilon symbol is not an input symbol of the other operand", "<= 3 states per base "
+                               assumptions=["<= 3 states per base "
                                             "operand, results nest up to depth 5"])
 
 
